@@ -139,24 +139,20 @@ def cvc5_check(smt2, timeout_s):
         os.unlink(path)
 
 
-def run_explore(unit, body, reg, default_props, timeout_ms, setup=None, max_paths=20000):
-    """explore all paths of body; return a JSON-able unit result"""
+def run_explore(unit, body, reg, default_props, timeout_ms, setup=None, max_paths=6000):
+    """explore all paths of body; return a JSON-able unit result.  Every path is digested as soon as it ends so that
+    no solver state is kept (a unit with thousands of paths would otherwise need tens of GB)"""
     w = get_world()
     t0 = time.time()
     res = {"unit": unit, "vcs": [], "paths": 0, "outcomes": {}, "unsupported": [], "inlined": [], "contracts_used": [],
-           "solver_time": 0.0, "queries": 0, "native_calls": 0, "error": None, "path_sigs": []}
-    try:
-        results = interp.explore(w, body, unit, reg, max_paths=max_paths, timeout_ms=timeout_ms, setup=setup)
-    except interp.Budget as b:
-        res["error"] = f"budget: {b}"
-        res["wall"] = time.time() - t0
-        return res
+           "solver_time": 0.0, "queries": 0, "native_calls": 0, "error": None}
     outc = Counter()
     nref = {}
     inl, used = set(), set()
-    for r in results:
+
+    def digest(ex, r):
         if r.outcome == "infeasible":
-            continue
+            return
         res["paths"] += 1
         outc[contracts.outcome_label(r)] += 1
         if r.outcome == "unsupported":
@@ -164,23 +160,26 @@ def run_explore(unit, body, reg, default_props, timeout_ms, setup=None, max_path
         for vc in r.vcs:
             if vc.verdict == "refuted":
                 nref[vc.name] = nref.get(vc.name, 0) + 1
-            d = _vc_dict(vc, r.ex, props_of(vc.name, default_props), nref.get(vc.name, 0) <= 2)
+            d = _vc_dict(vc, ex, props_of(vc.name, default_props), nref.get(vc.name, 0) <= 2)
             d["path"] = [f"{t}={c}" for t, c in zip(r.tags, r.trace)][-12:]
             if vc.verdict == "unknown" and vc.smt2:
                 ans = cvc5_check(vc.smt2, timeout_ms / 1000.0)
                 if ans == "unsat":
                     d["verdict"], d["backend"] = "discharged", "cvc5"
-                elif ans == "sat":
-                    d["verdict"], d["backend"] = "refuted", "cvc5"
+                # a cvc5 'sat' carries no model here: it stays undecided (never a violation without a replay)
                 d.pop("smt2", None)
             res["vcs"].append(d)
-        inl |= r.ex.inlined
-        used |= r.ex.called_contracts
-        res["solver_time"] += r.ex.solver_time
-        res["queries"] += r.ex.nqueries
-        res["native_calls"] += r.ex.native_calls
-        res["path_sigs"].append("".join("1" if c is True else "0" if c is False else str(c) for c in r.trace))
-        r.ex = None
+        inl.update(ex.inlined)
+        used.update(ex.called_contracts)
+        res["solver_time"] += ex.solver_time
+        res["queries"] += ex.nqueries
+        res["native_calls"] += ex.native_calls
+
+    try:
+        interp.explore(w, body, unit, reg, max_paths=max_paths, timeout_ms=timeout_ms, setup=setup, on_path=digest,
+                       keep_ex=False)
+    except interp.Budget as b:
+        res["unsupported"].append({"reason": f"path budget exceeded: {b}", "path": []})
     res["outcomes"] = dict(outc)
     res["inlined"] = sorted(inl)
     res["contracts_used"] = sorted(used)
@@ -371,7 +370,10 @@ def unit_differential(key, tier):
             (n["kind"] == "raise" and n["cls"] == e["cls"] and all(
                 n["attrs"].get(k) == v for k, v in e["attrs"].items())))
         if not same:
-            res["mismatches"].append({"args": enc(list(s)), "native": n, "executor": e})
+            if e["kind"] == "error" and "nsupported" in str(e.get("why", "")):
+                res["unsupported"].append({"reason": "differential run: " + str(e["why"]), "path": []})
+            else:
+                res["mismatches"].append({"args": enc(list(s)), "native": n, "executor": e})
     res["wall"] = time.time() - t0
     return res
 
@@ -429,9 +431,35 @@ def _worker(spec):
 
 
 def run_units(specs, jobs=None):
+    """run the units on a process pool; a worker that dies (e.g. killed by the OOM killer) does not hang the check:
+    its unit is retried once alone and otherwise reported as a checker error"""
+    from concurrent.futures import ProcessPoolExecutor
+    from concurrent.futures.process import BrokenProcessPool
     jobs = jobs or min(16, max(1, os.cpu_count() or 1))
     if len(specs) <= 1 or jobs == 1:
         return [_worker(s) for s in specs]
     ctx = mp.get_context("fork")
-    with ctx.Pool(min(jobs, len(specs))) as pool:
-        return pool.map(_worker, specs, chunksize=1)
+    results = [None] * len(specs)
+    todo = list(range(len(specs)))
+    for attempt in range(2):
+        if not todo:
+            break
+        workers = min(jobs, len(todo)) if attempt == 0 else 1
+        try:
+            with ProcessPoolExecutor(max_workers=workers, mp_context=ctx) as pool:
+                futs = {i: pool.submit(_worker, specs[i]) for i in todo}
+                for i, f in futs.items():
+                    try:
+                        results[i] = f.result()
+                    except BrokenProcessPool:
+                        pass
+                    except Exception as e:      # noqa
+                        results[i] = {"unit": str(specs[i][2:5]), "error": repr(e), "vcs": [], "paths": 0,
+                                      "unsupported": [], "crash": True}
+        except BrokenProcessPool:
+            pass
+        todo = [i for i in todo if results[i] is None]
+    for i in todo:
+        results[i] = {"unit": str(specs[i][2:5]), "error": "worker process died (out of memory?)", "vcs": [],
+                      "paths": 0, "unsupported": [], "crash": True}
+    return results
